@@ -16,7 +16,12 @@ RULE = (
     "set incl. 0) plus Hypothesis-generated tables over <=8 unicode-named platforms, <=40 keys, counts <=10^12; "
     "every non-empty `platforms` subset as set and list; oracle = exact rational formulas + metamorphic relations "
     "(symmetry, renaming, insertion order, scaling). Non-trivial: >=3 platforms, or a platform occurring only in "
-    "shared sets, or a zero-count row, or an explicit platforms subset; distinct by canonical table."
+    "shared sets, or a zero-count row, or an explicit platforms subset; distinct by canonical table. "
+    "Histories: ONE dict/defaultdict object over <=4 platforms updated in place 1-5 times (counts accumulated on "
+    "the same keys, common factor, all zero, one count replaced, key exchanged/added/removed, another table asked "
+    "in between) with every metric (and optionally the summary lines) recomputed on that same object after each "
+    "step against the exact model of its current contents; non-trivial: >=1 effective in-place update of a table "
+    "that had lines."
 )
 ASSUMPTIONS = [
     "float results are compared with exact rationals at 1e-9 relative tolerance",
@@ -360,6 +365,202 @@ def _printed_shard(seed, n):
     return res
 
 
+# ---------------------------------------------------------------- histories of ONE table object
+#
+# The statement quantifies over tables, not over dict objects: a metric asked of a table must be the
+# metric of the table *as it is at the time of the call*.  Callers keep one setmap object and update
+# it in place between two computations (FileTree.insert: ``parent.setmap[ps] += setmap[ps]``), so a
+# history is: build ONE dict / defaultdict(int), compute every metric, update the very same object in
+# place (same keys and larger counts, a common factor, all counts zero, one count replaced, a key
+# exchanged for another one, a key added or removed), compute every metric again, ... - each time
+# against the exact rational model of the current contents.  Everything above hands a fresh
+# ``dict(table)`` to every call and therefore cannot see state kept per object between two calls.
+
+HIST_NAMES = ["cpu", "gpu", "fpga", "A", "é"]
+SAME_KEYS_STEPS = ("add", "scale", "zero", "set")  # in-place updates that keep the key set
+
+
+def _kj(k):
+    return sorted(k)
+
+
+def hist_apply(obj, step):
+    """Apply one JSON step to the live object, in place.  Steps that do not fit the current
+    contents (possible only in hand-edited replays) are skipped."""
+    kind = step[0]
+    if kind == "add":
+        for k, d in step[1]:
+            k = frozenset(k)
+            if k in obj:
+                obj[k] += d
+    elif kind == "scale":
+        for k in obj:
+            obj[k] *= step[1]
+    elif kind == "zero":
+        for k in obj:
+            obj[k] = 0
+    elif kind == "set":
+        if frozenset(step[1]) in obj:
+            obj[frozenset(step[1])] = step[2]
+    elif kind == "swap":
+        old, new = frozenset(step[1]), frozenset(step[2])
+        if old in obj and new not in obj:
+            c = obj.pop(old)
+            obj[new] = c if len(step) < 4 else step[3]
+    elif kind == "new":
+        if frozenset(step[1]) not in obj:
+            obj[frozenset(step[1])] = step[2]
+    elif kind == "del":
+        obj.pop(frozenset(step[1]), None)
+    elif kind == "other":
+        # an unrelated table object is asked in between
+        from codebasin import report
+
+        o = {frozenset(k): c for k, c in step[1]}
+        for fn in (report.coverage, report.average_coverage, report.divergence):
+            call(fn, o)
+
+
+def history_strategy():
+    from hypothesis import strategies as st
+
+    small = st.one_of(st.integers(0, 9), st.integers(0, 10**6), st.sampled_from([0, 1, 10**12]))
+
+    @st.composite
+    def histories(draw):
+        ps = draw(st.lists(st.sampled_from(HIST_NAMES), min_size=1, max_size=4, unique=True))
+        keyspace = [frozenset(c) for r in range(len(ps) + 1) for c in itertools.combinations(ps, r)]
+        keys = draw(st.lists(st.sampled_from(keyspace), min_size=1, max_size=8, unique=True))
+        initial = [[_kj(k), draw(small)] for k in keys]
+        container = draw(st.sampled_from(["dict", "defaultdict"]))
+        cur = list(keys)
+        steps = []
+        for _ in range(draw(st.integers(1, 5))):
+            kinds = ["add", "add", "scale", "zero", "set", "other"]
+            if len(cur) < len(keyspace):
+                kinds += ["swap", "new"]
+            if len(cur) > 1:
+                kinds.append("del")
+            kind = draw(st.sampled_from(kinds)) if cur else "new"
+            if kind == "add":
+                # a further file with the same platform sets is accumulated into the table
+                steps.append(["add", [[_kj(k), draw(small)] for k in cur]])
+            elif kind == "scale":
+                steps.append(["scale", draw(st.sampled_from([2, 3, 1000, 10**6]))])
+            elif kind == "zero":
+                steps.append(["zero"])
+            elif kind == "set":
+                steps.append(["set", _kj(draw(st.sampled_from(cur))), draw(small)])
+            elif kind == "swap":
+                old = draw(st.sampled_from(cur))
+                new = draw(st.sampled_from([k for k in keyspace if k not in cur]))
+                cur[cur.index(old)] = new
+                steps.append(["swap", _kj(old), _kj(new)] + ([draw(small)] if draw(st.booleans()) else []))
+            elif kind == "new":
+                new = draw(st.sampled_from([k for k in keyspace if k not in cur]))
+                cur.append(new)
+                steps.append(["new", _kj(new), draw(small)])
+            elif kind == "del":
+                old = draw(st.sampled_from(cur))
+                cur.remove(old)
+                steps.append(["del", _kj(old)])
+            else:
+                o = draw(st.lists(st.sampled_from(keyspace), min_size=0, max_size=4, unique=True))
+                steps.append(["other", [[_kj(k), draw(small)] for k in o]])
+        printed = draw(st.booleans())
+        return {"container": container, "initial": initial, "steps": steps, "printed": printed}
+
+    return histories()
+
+
+def _judge_state(obj, hist, at, kind, vs):
+    """Every metric of the live object `obj`, against the exact model of its current contents."""
+    import re
+
+    from codebasin import report
+
+    table = dict(obj)  # the model works on a snapshot; the tool is always handed `obj` itself
+    ps = sorted(m_platforms(table))
+    tj = table_json(table)
+    case = {"history": hist, "at_step": at, "table": tj}
+    results = {}
+
+    def judge(what, got, acceptable, args=None):
+        k, val = got
+        if k == "exc":
+            vs.append(make_violation(f"history:{what}:exception:{val.split(':')[0]}:after={kind}", {**case, "call": what, "args": args}, show(acceptable), val))
+        elif not agrees(val, acceptable):
+            und = "expected-nan" if acceptable == {NAN} else ("got-nan" if isinstance(val, float) and math.isnan(val) else "value")
+            vs.append(make_violation(f"history:{what}:{und}:after={kind}", {**case, "call": what, "args": args}, show(acceptable), repr(val), note="same table object as in the earlier steps, updated in place"))
+        elif isinstance(val, (int, float)) and not math.isnan(val) and not (0 <= val <= RANGE_MAX[what]):
+            vs.append(make_violation(f"history:{what}:outside-documented-range:after={kind}", {**case, "call": what, "args": args}, f"[0, {RANGE_MAX[what]}]", repr(val)))
+        if k == "ok" and args is None:
+            results[what] = val
+
+    judge("coverage", call(report.coverage, obj), m_coverage(table))
+    judge("average_coverage", call(report.average_coverage, obj), m_avg_coverage(table))
+    judge("divergence", call(report.divergence, obj), m_divergence(table))
+    for a in ps:
+        for b in ps:
+            judge("distance", call(report.distance, obj, a, b), m_distance(table, a, b), [a, b])
+    for r in (1, len(ps)):
+        for sub in itertools.combinations(ps, r):
+            for conv in (set, list):
+                judge("coverage", call(report.coverage, obj, conv(sub)), m_coverage(table, set(sub)), list(sub))
+                judge("average_coverage", call(report.average_coverage, obj, conv(sub)), m_avg_coverage(table, set(sub)), list(sub))
+    if hist.get("printed"):
+        buf = io.StringIO()
+        try:
+            report.summary(obj, stream=buf)
+        except Exception as e:
+            vs.append(make_violation(f"history:summary:exception:{type(e).__name__}", case, "summary printed", f"{type(e).__name__}: {e}"))
+        else:
+            for label, acc in (("Code Divergence", m_divergence(table)), ("Coverage (%)", m_coverage(table)), ("Avg. Coverage (%)", m_avg_coverage(table))):
+                m = re.search(re.escape(label) + r": (\S+)", buf.getvalue())
+                if m is None or not any(_near(m.group(1), {a}) for a in acc):
+                    vs.append(make_violation(f"history:summary-line:{label}:after={kind}", case, _fmt(acc), m.group(1) if m else None))
+    return results
+
+
+def check_history(hist, res: Result):
+    import collections
+
+    vs = []
+    obj = collections.defaultdict(int) if hist.get("container") == "defaultdict" else {}
+    for k, c in hist["initial"]:
+        obj[frozenset(k)] = c
+    prev = _judge_state(obj, hist, 0, "initial", vs)
+    inplace = 0  # updates of the object that change a defined metric's inputs while the key set stays
+    labels = [f"history:container={hist.get('container', 'dict')}"]
+    for i, step in enumerate(hist["steps"], 1):
+        before = dict(obj)
+        hist_apply(obj, step)
+        if step[0] == "other":
+            labels.append("history:step=other-table-in-between")
+            continue
+        changed = dict(obj) != before
+        labels.append(f"history:step={step[0]}{'' if changed else '(no change)'}")
+        if changed and sum(before.values()) > 0:
+            inplace += 1
+        now = _judge_state(obj, hist, i, step[0], vs)
+        if step[0] == "scale":
+            # "unchanged by multiplying all counts by a common factor": not a single bit (see check_table)
+            for n, x in prev.items():
+                y = now.get(n)
+                if y is not None and not ((math.isnan(x) and math.isnan(y)) or x == y):
+                    vs.append(make_violation(f"history:{n}:not-invariant:scaled-in-place", {"history": hist, "at_step": i, "table": table_json(dict(obj))}, x, y))
+        prev = now
+    res.case(key=["history", hist], nontrivial=inplace > 0, sample={"history": hist}, labels=labels + [f"history:in-place-updates={min(inplace, 3)}{'+' if inplace > 3 else ''}"])
+    return vs
+
+
+def _history_shard(seed, n, known):
+    core.setup_import_path()
+    res = Result()
+    core.hyp_search(history_strategy(), check_history, n, seed, res, known_sigs=known)
+    return res
+
+
 # ---------------------------------------------------------------- entry points
 
 
@@ -371,6 +572,8 @@ def run(ctx):
     jobs += [(_rand_shard, (ctx.shard_seed("rand", i), nrand // core.NPROC, ctx.known_sigs)) for i in range(core.NPROC)]
     nprint = ctx.pick(64, 1600)
     jobs += [(_printed_shard, (ctx.shard_seed("printed", i), nprint // 8)) for i in range(8)]
+    nhist = ctx.pick(3200, 96000)
+    jobs += [(_history_shard, (ctx.shard_seed("history", i), nhist // core.NPROC, ctx.known_sigs)) for i in range(core.NPROC)]
     parts = core.pool_map(_dispatch, [(j,) for j in jobs])
     res = core.merge_results(parts)
     res.exhaustive = False
@@ -385,6 +588,8 @@ def _dispatch(job):
 
 def replay(case):
     core.setup_import_path()
+    if case.get("history") is not None:
+        return check_history(case["history"], Result())
     t = {frozenset(k): c for k, c in case["table"]}
     res = Result()
     if case.get("printed"):
